@@ -12,60 +12,57 @@ NOT_DEMANDED = ["unknown-rule-ref", "unknown-exclude-ref"]
 
 @st.composite
 def scenario(draw):
-    if draw(st.integers(0, 7)) == 0:
+    if C.chance(draw, 1, 8):
         kind = draw(st.sampled_from(USAGE_KINDS))
         sql, names, _, _ = draw(C.content(errors="none", noqa="none", max_parts=2))
         cmd = "format" if kind == "format-rules" else draw(st.sampled_from(["lint", "fix", "format"]))
         return {"sql": sql, "fname": "q.sql", "cfg": {"dialect": "ansi"}, "cmd": cmd, "usage": kind, "pieces": names}
     limit = draw(st.sampled_from([None, None, None, None, 1, 2]))
-    sql, names, hkind, jinja = draw(C.content(errors="some", noqa="errors" if limit else "some", max_parts=3))
+    focus = C.chance(draw, 1, 3)
+    if focus:
+        # the corner the statement is about: a TMP/PRS error that is usually suppressed, next to lint violations that are
+        # live, warnings or absent, under fix/format
+        sql, names, hkind, jinja = draw(C.content(errors="always", noqa="errors", max_parts=2,
+                                                  classes=("clean", "fixable", "fixable", "unfixable")))
+    else:
+        sql, names, hkind, jinja = draw(C.content(errors="some", noqa="errors" if limit else "some", max_parts=3))
     cfg = draw(C.core_cfg(feu=True, disable_noqa=True, templater_jinja=jinja))
     if limit:
         cfg["runaway_limit"] = limit
-    case = {"sql": sql, "fname": "q.sql", "cfg": cfg, "cmd": draw(st.sampled_from(["lint", "fix", "fix", "format"])),
-            "pieces": names}
-    if draw(st.integers(0, 3)) == 0:
+    if C.chance(draw, 1, 6):
+        cfg["large_file_skip_fail"] = True  # nothing is ever skipped here, so it must not matter
+    if focus:
+        cfg.pop("ignore", None)
+        cfg.pop("warnings", None)
+        i = draw(st.sampled_from([None, None, "parsing,templating", "parsing"]))
+        w = draw(st.sampled_from([None, "LT01,CP01,LT09,LT02,LT12", "LT01,CP01,LT09,LT02,LT12", "PRS,TMP",
+                                  "PRS,TMP,LT01,CP01,LT09,LT02,LT12", "AM01,AL04,LT05"]))
+        if i:
+            cfg["ignore"] = i
+        if w:
+            cfg["warnings"] = w
+    case = {"sql": sql, "fname": "q.sql", "cfg": cfg, "pieces": names,
+            "cmd": draw(st.sampled_from(["fix", "fix", "format"] if focus else ["lint", "lint", "fix", "format"]))}
+    if C.chance(draw, 1, 4):
         case["fname"] = "sub/q.sql"
         case["sub"] = draw(C.sub_cfg())
     cli = {}
-    if draw(st.integers(0, 4)) == 0:
+    if C.chance(draw, 1, 5):
         cli["ignore"] = draw(st.sampled_from([i for i in C.IGNORES if i]))
-    if case["cmd"] == "fix" and draw(st.integers(0, 7)) == 0:
+    if case["cmd"] == "fix" and C.chance(draw, 1, 8):
         cli["feu"] = True
     if case["cmd"] == "lint":
-        if draw(st.integers(0, 5)) == 0:
+        if C.chance(draw, 1, 6):
             cli["nofail"] = True
         cli["format"] = draw(st.sampled_from(["human", "human", "json", "none", "yaml", "github-annotation-native"]))
-    if draw(st.integers(0, 9)) == 0:
+    if C.chance(draw, 1, 10):
         case["usage"] = draw(st.sampled_from(NOT_DEMANDED if case["cmd"] != "format" else NOT_DEMANDED[1:]))
     if cli:
         case["cli"] = cli
     return case
 
 
-def tp_state(violations, eff, directives):
-    tp = [v for v in violations if C.is_tmp_prs(v)]
-    if not tp:
-        return "none"
-    codes = "+".join(sorted({v["code"] for v in tp}))
-    kinds = {C.suppression(v, eff, directives) for v in tp}
-    if None in kinds:
-        return "live:" + codes
-    return "suppressed(%s):%s" % ("+".join(sorted(kinds)), codes)
-
-
-def lint_state(violations, eff, directives):
-    lint = [v for v in violations if v["code"] not in ("TMP", "PRS", "LXR")]
-    if not lint:
-        return "none"
-    live = [v for v in lint if C.suppression(v, eff, directives) is None]
-    if live:
-        return "live-unfixable" if any(not v["fixable"] for v in live) else "live-fixable"
-    kinds = {C.suppression(v, eff, directives) for v in lint}
-    if "warning" in kinds:
-        fixable_warning = any(v["fixable"] for v in lint if C.suppression(v, eff, directives) == "warning")
-        return "warning-only" + ("(fixable)" if fixable_warning else "")
-    return "suppressed-only"
+tp_state, lint_state = C.tp_state, C.lint_state
 
 
 class C22(Check):
@@ -76,7 +73,7 @@ class C22(Check):
         "fixable / unfixable AM01,AL04,LT05 / PRS with and without tree / TMP undefined variable, TMP+PRS, fatal template "
         "error), optional noqa comments (plain, by code, PRS/TMP, disable=...), and a project config drawn from dialect, "
         "templater, rules, exclude_rules, warnings (codes, names, PRS/TMP), ignore (parsing/templating/linting/lexing), "
-        "fix_even_unparsable, runaway_limit 1-2, disable_noqa, a nested sub/.sqlfluff, --ignore / --FIX-EVEN-UNPARSABLE / "
+        "fix_even_unparsable, runaway_limit 1-2, disable_noqa, large_file_skip_fail (no file is ever skipped), a nested sub/.sqlfluff, --ignore / --FIX-EVEN-UNPARSABLE / "
         "--nofail / --format on the command line; command lint|fix|format; each case is run twice in real subprocesses "
         "(cwd = fresh project directory): on the path and on stdin with --stdin-filename. One case in eight is a "
         "usage/configuration error (unknown dialect on the command line or in the file, unknown templater, no dialect, "
@@ -96,7 +93,7 @@ class C22(Check):
         "runaway_limit 1-2 is combined only with files that have no noqa on lint rules (the unfiltered ground-truth fix "
         "loop would otherwise differ from the real one).",
     ]
-    shrink_budget = 25
+    shrink_budget = 8
 
     def selftest(self):
         C.selftest_models()
@@ -108,13 +105,14 @@ class C22(Check):
         assert lint_state([V("LT01")], {"warnings": "LT01"}, []) == "warning-only(fixable)"
         assert lint_state([V("AM01", False)], {"warnings": "AM01"}, []) == "warning-only"
         assert lint_state([V("LT01"), V("AM01", False)], {}, []) == "live-unfixable"
-        assert lint_state([V("LT01")], {}, [(1, "plain", None)]) == "suppressed-only"
+        assert lint_state([V("LT01")], {}, [(1, "plain", None)]) == "suppressed-only(noqa)"
+        assert lint_state([V("LT01")], {"ignore": "linting"}, [(1, "plain", None)]) == "suppressed-only(ignore)"
 
     def strategy(self, tier):
         return scenario()
 
     def examples(self, tier):
-        return 9 if tier == "quick" else 250
+        return 10 if tier == "quick" else 250
 
     def budget_s(self, tier):
         return 600.0 if tier == "quick" else 1700.0
@@ -149,13 +147,14 @@ class C22(Check):
         out.label("usage:" + kind, "cmd:" + cmd)
         out.nontrivial = True
         kinds = ("path",) if kind == "missing-path" else ("path", "stdin")
-        for inp in kinds:
-            with C.Project(case, "u") as pr:
-                if inp == "path":
-                    rc, so, se = C.run_cli([cmd] + extra + [target or pr.fname], pr.root)
-                else:
-                    rc, so, se = C.run_cli([cmd] + extra + ["-", "--stdin-filename", pr.fname], pr.root, stdin=pr.data)
-                changed = pr.read() != pr.data
+        results = []
+        with C.Project(case, "u") as p1, C.Project(case, "u") as p2:
+            jobs = [("path", p1, C.CliJob([cmd] + extra + [target or p1.fname], p1.root))]
+            if "stdin" in kinds:
+                jobs.append(("stdin", p2, C.CliJob([cmd] + extra + ["-", "--stdin-filename", p2.fname], p2.root, stdin=p2.data)))
+            for inp, pr, j in jobs:
+                results.append((inp, j.result(), pr.read() != pr.data))
+        for inp, (rc, so, se), changed in results:
             if rc != 2:
                 out.fail("%s %s (%s): exit %s, expected 2; output: %s" % (cmd, inp, kind, rc, (so + se)[-300:]),
                          clause="usage-exit-2", usage=kind, input=inp, got=rc, traceback=C.is_traceback(se))
@@ -180,10 +179,26 @@ class C22(Check):
         if eff.get("runaway_limit") and any(a != "plain" or r is None or set(r) - {"PRS", "TMP"} for _, a, r in directives):
             out.excluded = "runaway_limit+lint-noqa"
             return out
+        args = [cmd] + C.cli_opts(case)
+        if cli.get("feu"):
+            args.append("--FIX-EVEN-UNPARSABLE")
+        if cli.get("nofail"):
+            args.append("--nofail")
+        if cmd == "lint" and cli.get("format") and cli["format"] != "human":
+            args += ["--format", cli["format"]]
+        if case.get("usage") == "unknown-rule-ref":
+            args += ["--rules", (eff.get("rules") or "all") + ",ZZ99"]
+        elif case.get("usage") == "unknown-exclude-ref":
+            args += ["--exclude-rules", ((eff.get("exclude_rules") + ",") if eff.get("exclude_rules") else "") + "ZZ99"]
         gcase = case
         if cmd == "format":
             gcase = dict(case, cli=dict(cli, rules=FORMAT_RULES))
-        gt = guard(C.ground_truth, gcase)
+        # the two CLI runs work in the background (own project copies) while the ground truth is computed in-process
+        with C.Project(case, "r") as p1, C.Project(case, "r") as p2:
+            jobs = [("path", C.CliJob(args + [p1.fname], p1.root)),
+                    ("stdin", C.CliJob(args + ["-", "--stdin-filename", p2.fname], p2.root, stdin=p2.data))]
+            gt = guard(C.ground_truth, gcase)
+            results = [(inp, j.result()) for inp, j in jobs]
         if isinstance(gt, Crash):
             out.excluded = "crash(C04):%s@%s" % (gt.type, gt.frame)
             return out
@@ -213,24 +228,7 @@ class C22(Check):
         if unsuppressed != expected:
             out.label("suppression-decides-exit")
         out.info = {"tp": tp, "lint": ls, "expected": expected}
-
-        args = [cmd] + C.cli_opts(case)
-        if cli.get("feu"):
-            args.append("--FIX-EVEN-UNPARSABLE")
-        if cli.get("nofail"):
-            args.append("--nofail")
-        if cmd == "lint" and cli.get("format") and cli["format"] != "human":
-            args += ["--format", cli["format"]]
-        if case.get("usage") == "unknown-rule-ref":
-            args += ["--rules", (eff.get("rules") or "all") + ",ZZ99"]
-        elif case.get("usage") == "unknown-exclude-ref":
-            args += ["--exclude-rules", ((eff.get("exclude_rules") + ",") if eff.get("exclude_rules") else "") + "ZZ99"]
-        for inp in ("path", "stdin"):
-            with C.Project(case, "r") as pr:
-                if inp == "path":
-                    rc, so, se = C.run_cli(args + [pr.fname], pr.root)
-                else:
-                    rc, so, se = C.run_cli(args + ["-", "--stdin-filename", pr.fname], pr.root, stdin=pr.data)
+        for inp, (rc, so, se) in results:
             if C.is_traceback(se) or C.is_traceback(so):
                 out.label("cli-traceback")
                 out.excluded = "crash(C04):cli-traceback"
